@@ -154,6 +154,15 @@ def judge(ctx, E, a, f, GM, w, lats, hs):
         if ctx.ok("array of latitudes gives one gravity value per latitude", A0.shape == S0.shape and Ah.shape == Sh.shape, {"shape": list(A0.shape)}, route=r):
             ctx.le("normal_gravity(array of latitudes[, h]) = the scalar evaluations", float(max(np.abs(A0 - S0).max(), np.abs(Ah - Sh).max()) / g0), 1e-15, {"h": hh_, "array": Ah, "scalar": Sh}, route=r)
         ctx.ok("the caller's latitude array is left as it was", np.array_equal(la_in, la_), {"after": la_in, "before": la_}, route=r)
+    # short latitude arrays of every small size (1, 2, 3, 4 elements; also as a column): one gravity value per latitude, the scalar evaluations
+    for n_ in (1, 2, 3, 4):
+        arr = np.array(([-90.0, 0.0, 90.0, 45.0] if n_ % 2 else [float(x) for x in list(lats)[:4]] + [10.0] * 4)[:n_])
+        oa = call(lambda: (np.asarray(E.normal_gravity(arr.copy()), float), np.asarray(E.normal_gravity(arr.copy(), hh_), float), np.array([float(E.normal_gravity(float(x))) for x in arr]),
+                           np.array([float(E.normal_gravity(float(x), hh_)) for x in arr])))
+        if ctx.returned(oa, clause="no-exception[short array of latitudes]", route=r):
+            A0, Ah, S0, Sh = oa.value
+            if ctx.ok("a short array of latitudes gives one gravity value per latitude", A0.shape == S0.shape and Ah.shape == Sh.shape, {"n": n_, "shape": list(np.shape(A0))}, route=r):
+                ctx.le("normal_gravity(short array of latitudes[, h]) = the scalar evaluations", float(max(np.abs(A0 - S0).max(), np.abs(Ah - Sh).max()) / g0), 1e-15, {"n": n_, "latitudes": arr}, route=r)
     for lat in [0.0, 90.0, -90.0, 45.0, -45.0] + list(lats):
         out = call(lambda: (float(E.normal_gravity(lat)), float(E.normal_gravity(-lat)), [float(E.normal_gravity(lat, float(h))) for h in hs]))
         if not ctx.returned(out, route=r):
